@@ -16,7 +16,14 @@ LEMMA_MODULES = ['OdfModel.Xml.EscapeLemmas', 'OdfModel.Xml.AttrLemmas', 'OdfMod
 
 
 def setup(chk, prop_modules):
-    translate_esc.translate(chk)
+    try:
+        translate_esc.translate(chk)
+    except (RuntimeError, AssertionError) as e:
+        # the filter is no longer a per-code-point map (the translator can only tabulate such a map).  That breaks the
+        # correspondence, recorded as a failed obligation; the run goes on with the table generated last so that the ORACLE can
+        # still look for a concrete string on which the real code breaks the property (surrogate_pairs_check, strings_check)
+        chk.obligation('translate_esc: _handle_unrepresentable is a per-code-point map (length preserving, context free)', False,
+                       repr(e), kind='translator-crosscheck')
     translate_ns.translate(chk)
     translate_escsrc.translate(chk)
     ok = chk.prove(modules=prop_modules + LEMMA_MODULES, drivers=['drv_xml'])
@@ -67,10 +74,24 @@ def short_strings(chk):
             yield u''.join(tup)
     for s in (u']]>', u']]]>', u']]>]]>', u']>]]>', u'\r]]>', u']]\r>', u']\r]>', u'a]]>b\r\nc', u'"\'"', u"'\"'", u'&#13;', u'&amp;'):
         yield s
+    # surrogate code points next to each other: a Python str may hold a HIGH and a LOW surrogate as two code points; XML can represent
+    # neither, so the tree holds two unrepresentable characters (a filter that looks at more than one code point at a time,
+    # e.g. one that joins the pair, is caught here)
+    for s in SURROGATE_STRINGS:
+        yield s
     # strings built from the very tokens the encoders emit (an encoder that post-processes its own output is fooled by these)
     for k in (1, 2, 3) if chk.tier != 'quick' else (1, 2):
         for tup in itertools.product(TOKENS, repeat=k):
             yield u''.join(tup)
+
+
+HI_LO = [(u'\ud83d', u'\ude00'), (u'\ud800', u'\udc00'), (u'\udbff', u'\udfff'), (u'\ud800', u'\udfff'), (u'\udbff', u'\udc00')]
+SURROGATE_STRINGS = []
+for _h, _l in HI_LO:
+    SURROGATE_STRINGS += [_h + _l, u'a' + _h + _l + u'b', _l + _h, _h + _h + _l, _h + _l + _l, _h + _l + _h + _l, _h + u'a' + _l,
+                          u'\x01' + _h + _l + u'\x02', _h + _l + u'\U0001F600' + _h + _l, u'&' + _h + _l + u'<', u']]' + _h + _l + u'>',
+                          u'"' + _h + _l + u"'", u'\r' + _h + _l + u'\n', u'\ufffe' + _h + _l + u'\uffff']
+del _h, _l
 
 
 TOKENS = [u'<![CDATA[', u']]>', u'&#13;', u'&#10;', u'&#9;', u'&amp;', u'&lt;', u'&gt;', u'&quot;', u'&apos;', u'<!--', u'-->', u'<?', u'?>',
@@ -118,6 +139,47 @@ def strings_check(chk, drv, fs, want_identity):
                 if got != exp:
                     sig = 'discouraged-codepoint' if any(X.is_discouraged(c) for c in s) else 'value-changed:' + ctx
                     chk.fail(sig, {'context': ctx, 's': enc_str(s)}, 'parsed back as %r, expected %r' % (got, exp))
+
+
+def surrogate_pairs_check(chk, drv, fs, want_identity):
+    """EVERY (high surrogate, low surrogate) pair of code points, adjacent, in the three positions: 1024 strings per position, each
+    holding one high surrogate followed by each of the 1024 low surrogates in turn (quick: all high surrogates as text, every 8th
+    as attribute value / CDATA; thorough: all in all three).  Model vs code (bytes) and the oracle: well-formed, and (C02) every
+    one of the 2048 code points arrives as one U+FFFD"""
+    lows = [chr(c) for c in range(0xDC00, 0xE000)]
+    for ctx in ('text', 'attr', 'cdata'):
+        step = 1 if (ctx == 'text' or chk.tier != 'quick') else 8
+        his = [chr(c) for c in range(0xD800, 0xDC00, step)]
+        cases = [u''.join(h + l for l in lows) for h in his]
+        ans = drv.batch('%s %s' % (ctx, enc_str(s)) for s in cases)
+        for h, s, a in zip(his, cases, ans):
+            real = fs[ctx](s)
+            chk.corr(); chk.count('surrogate_pairs_' + ctx, len(lows))
+            chk.case(('surrogate-pairs', ctx, h))
+            if a != 'ok ' + enc_str(real):
+                chk.corr_diff({'context': ctx, 'high': '%x' % ord(h), 'low': 'dc00-dfff'}, real[:40], (dec_str(a[3:]) if a.startswith('ok ') else a)[:40],
+                              'encoder output on a high surrogate followed by each low surrogate')
+            doc = PROLOGUE + (u'<a b=' + real + u'/>' if ctx == 'attr' else u'<a>' + real + u'</a>')
+            ok, res = wellformed(doc)
+            got = None if not ok else (res[3][0][2] if ctx == 'attr' else u''.join(k[1] for k in res[4]))
+            if ok and (not want_identity or got == X.repl_illegal(s)):
+                continue
+            # narrow down to one pair (the smallest input of the class), each pair on its own
+            for l in lows:
+                one = u'a' + h + l + u'b'
+                r1 = fs[ctx](one)
+                ok1, res1 = wellformed(PROLOGUE + (u'<a b=' + r1 + u'/>' if ctx == 'attr' else u'<a>' + r1 + u'</a>'))
+                got1 = None if not ok1 else (res1[3][0][2] if ctx == 'attr' else u''.join(k[1] for k in res1[4]))
+                if not ok1:
+                    chk.fail('not-wellformed:' + ctx, {'context': ctx, 's': enc_str(one)}, '%s: %r' % (res1, r1)); break
+                if want_identity and got1 != X.repl_illegal(one):
+                    chk.fail('value-changed:' + ctx, {'context': ctx, 's': enc_str(one)},
+                             'parsed back as %r, expected %r (two unrepresentable code points -> two U+FFFD)' % (got1, X.repl_illegal(one))); break
+            else:
+                if not ok:
+                    chk.fail('not-wellformed:' + ctx, {'context': ctx, 's': enc_str(s)}, '%s' % (res,))
+                else:
+                    chk.fail('value-changed:' + ctx, {'context': ctx, 's': enc_str(s)}, 'parsed back as %r...' % (got[:20],))
 
 
 def trees_check(chk, drv, want_identity, n=None, discouraged=False):
@@ -216,7 +278,13 @@ def rand_document(rng, allow_bad=True):
     from odf.opendocument import OpenDocumentText
     from odf import text, style, dc, meta, config, office
     from odf.element import Element, CDATASection
-    s = lambda: X.rand_string(rng, allow_bad) or u'x'
+    def s():
+        x = X.rand_string(rng, allow_bad) or u'x'
+        if allow_bad and rng.random() < 0.12:
+            # a high surrogate immediately followed by a low one (two unrepresentable code points), somewhere in the string
+            h, l = rng.choice(HI_LO); k = rng.randint(0, len(x))
+            x = x[:k] + h + l + x[k:]
+        return x
     d = OpenDocumentText()
     d.meta.addElement(dc.Title(text=s()))
     d.meta.addElement(dc.Creator(text=s()))
@@ -628,6 +696,315 @@ def fresh_process_documents_check(chk):
                 break
 
 
+# ------------------------------------------------------------------ the first rendering of a process, compared with the tree (C02)
+_CHILD_FIRST = r"""
+import sys, json, io, base64, zipfile
+sys.path.insert(0, %(repo)r)
+sys.path.insert(0, %(harness)r)
+sys.dont_write_bytecode = True
+spec = json.loads(sys.stdin.read())
+_real_stdout = sys.stdout; sys.stdout = sys.stderr
+import xmlcorr as X, xmlchecks as C          # neither imports the library
+import odf.opendocument as OD
+from odf.element import Element
+src = spec['source']
+if src['kind'] == 'loaded':
+    d = OD.load(io.BytesIO(base64.b64decode(src['package'])))
+else:
+    if src['gen']:
+        d = getattr(OD, 'OpenDocument' + src['cls'])()
+    else:
+        import odf.office as OF
+        mt = {'Text': 'text', 'Spreadsheet': 'spreadsheet', 'Presentation': 'presentation', 'Drawing': 'graphics',
+              'Chart': 'chart', 'Image': 'image', 'TextMaster': 'text-master'}[src['cls']]
+        d = OD.OpenDocument(u'application/vnd.oasis.opendocument.' + mt, add_generator=False)
+        d.body.addElement(getattr(OF, {'TextMaster': 'Text'}.get(src['cls'], src['cls']))())
+    if src.get('dc'):
+        from odf import dc
+        d.meta.addElement(dc.Title(text=u'a < b & c'))
+        d.meta.addElement(dc.Creator(text=u'N.N.'))
+table_before = [[k, v] for k, v in Element.namespaces.items()]
+SECTION = {'metaxml': 'meta', 'settingsxml': 'settings', 'stylesxml': 'styles', 'contentxml': 'body', 'xml': 'topnode',
+           'meta.xml': 'meta', 'settings.xml': 'settings', 'styles.xml': 'styles', 'content.xml': 'body', 'META-INF/manifest.xml': 'manifest'}
+outs = []
+def record(name, key, data, table_pre=None):
+    # the stream, the section of the in-memory tree it was written for (walked right after the call: metaxml() itself puts
+    # the generator entry into office:meta), and the namespace table as it is now
+    sec = getattr(d, SECTION[key], None)
+    rec = {'name': name, 'section': SECTION[key], 'text': data.decode('utf-8') if isinstance(data, bytes) else data,
+           'tree': X.walk(sec) if sec is not None else None, 'table': [[k, v] for k, v in Element.namespaces.items()]}
+    if key in ('metaxml', 'settingsxml', 'stylesxml', 'contentxml'):
+        rec['part_model'] = dict(C.part_models(d))[key + '()']
+        # the table the root start tag was written from: metaxml() creates the generator entry first and then writes; contentxml() and
+        # stylesxml() look up style references AFTER the root tag is out (getAttrNS registers the namespaces it asks about)
+        if key in ('stylesxml', 'contentxml'):
+            rec['table'] = table_pre
+    outs.append(rec)
+for call in spec['order']:
+    if call in ('save', 'write'):
+        b = io.BytesIO(); getattr(d, call)(b); z = zipfile.ZipFile(io.BytesIO(b.getvalue()))
+        for n in z.namelist():
+            if n in SECTION:
+                record(call + ':' + n, n, z.read(n))
+    else:
+        pre = [[k, v] for k, v in Element.namespaces.items()]
+        record(call + '()', call, getattr(d, call)(), pre)
+_real_stdout.write(json.dumps({'table_before': table_before, 'outs': outs}))
+"""
+
+
+def run_child_first(spec):
+    code = _CHILD_FIRST.replace('%(repo)r', repr(common.REPO)).replace('%(harness)r', repr(os.path.join(common.VERIF, 'harness')))
+    r = subprocess.run([sys.executable, '-c', code], input=json.dumps(spec), stdout=subprocess.PIPE, stderr=subprocess.PIPE,
+                       universal_newlines=True)
+    if r.returncode != 0:
+        return {'error': r.stderr[-800:]}
+    return json.loads(r.stdout)
+
+
+def dc_only_package(meta_kind):
+    """a package as another producer writes it, made with zipfile and literal XML: meta.xml holds Dublin Core entries only
+    ('dc'), is absent ('none'), or holds a meta:* entry as office suites write it ('meta', the ordinary case)"""
+    import base64
+    MT = u'application/vnd.oasis.opendocument.text'
+    decl = (u' xmlns:office="urn:oasis:names:tc:opendocument:xmlns:office:1.0" xmlns:text="urn:oasis:names:tc:opendocument:xmlns:text:1.0"'
+            u' xmlns:dc="http://purl.org/dc/elements/1.1/" xmlns:meta="urn:oasis:names:tc:opendocument:xmlns:meta:1.0" office:version="1.2"')
+    entries = {'dc': u'<dc:title>Minutes &amp; more</dc:title><dc:creator>N.N.</dc:creator>', 'none': None,
+               'meta': u'<dc:title>Minutes</dc:title><meta:generator>SomeOffice/1.0</meta:generator><meta:editing-cycles>3</meta:editing-cycles>'}[meta_kind]
+    buf = io.BytesIO(); z = zipfile.ZipFile(buf, 'w')
+    z.writestr('mimetype', MT)
+    z.writestr('content.xml', (PROLOGUE + u'<office:document-content%s><office:body><office:text><text:p>Hello</text:p></office:text>'
+                               u'</office:body></office:document-content>' % decl).encode('utf-8'))
+    if entries is not None:
+        z.writestr('meta.xml', (PROLOGUE + u'<office:document-meta%s><office:meta>%s</office:meta></office:document-meta>' % (decl, entries)).encode('utf-8'))
+    z.writestr('META-INF/manifest.xml', (PROLOGUE + u'<manifest:manifest xmlns:manifest="urn:oasis:names:tc:opendocument:xmlns:manifest:1.0">'
+               u'<manifest:file-entry manifest:full-path="/" manifest:media-type="%s"/>'
+               u'<manifest:file-entry manifest:full-path="content.xml" manifest:media-type="text/xml"/>%s</manifest:manifest>'
+               % (MT, u'<manifest:file-entry manifest:full-path="meta.xml" manifest:media-type="text/xml"/>' if entries is not None else u'')).encode('utf-8'))
+    z.close()
+    return base64.b64encode(buf.getvalue()).decode('ascii')
+
+
+def first_render_specs(chk):
+    calls = ['metaxml', 'save', 'write', 'xml', 'contentxml', 'stylesxml', 'settingsxml']
+    classes = ['Text', 'Spreadsheet', 'Presentation', 'Drawing', 'Chart', 'Image', 'TextMaster']
+    specs = []
+    for i, first in enumerate(calls):
+        rest = [c for c in calls if c != first]
+        # built without the generator entry: nothing of the meta namespace exists when the first stream is written
+        specs.append({'source': {'kind': 'built', 'cls': classes[i % len(classes)], 'gen': False, 'dc': bool((i + 1) % 3)}, 'order': [first] + rest})
+        # loaded from a package whose meta.xml has only dc:* entries / that has no meta.xml
+        specs.append({'source': {'kind': 'loaded', 'meta': 'dc' if i % 2 == 0 else 'none'}, 'order': [first] + rest})
+        if chk.tier != 'quick' or first in ('metaxml', 'save', 'write'):
+            specs.append({'source': {'kind': 'loaded', 'meta': 'none' if i % 2 == 0 else 'dc'}, 'order': [first, first] + rest})
+            specs.append({'source': {'kind': 'built', 'cls': classes[(i + 3) % len(classes)], 'gen': True, 'dc': True}, 'order': [first] + rest})
+            specs.append({'source': {'kind': 'loaded', 'meta': 'meta'}, 'order': [first] + rest})
+    if chk.tier != 'quick':
+        for cls in classes:
+            for first in calls:
+                specs.append({'source': {'kind': 'built', 'cls': cls, 'gen': False, 'dc': False}, 'order': [first, 'metaxml', 'save']})
+    return specs
+
+
+def first_render_one(chk, spec, drv=None):
+    """one fresh interpreter: every stream parsed with expat and compared with the section of the tree it was written for"""
+    full = dict(spec)
+    if spec['source']['kind'] == 'loaded':
+        full['source'] = dict(spec['source'], package=dc_only_package(spec['source']['meta']))
+    out = run_child_first(full)
+    chk.case(('first-render', json.dumps(spec, sort_keys=True))); chk.count('first_render_processes')
+    if 'error' in out:
+        chk.fail('first-render-raises', {'first_render': spec}, out['error'][-400:]); return
+    def fix(n):
+        if n[0] in 'TC': return (n[0], n[1])
+        return ('E', n[1], n[2], [tuple(a) for a in n[3]], [fix(k) for k in n[4]])
+    lines = []; metas = []
+    for k, rec in enumerate(out['outs']):
+        name = rec['name']; chk.count('first_render_streams')
+        case = {'first_render': spec, 'rendering': name, 'position': k}
+        if drv is not None and 'part_model' in rec:
+            lines.append('renderpart ' + X.wire_table([tuple(x) for x in rec['table']]) + ' ' + X.wire_tree(fix(rec['part_model'])))
+            metas.append((case, rec['text']))
+        try:
+            tree = X.expat_parse(rec['text'].encode('utf-8'))
+        except xml.parsers.expat.ExpatError as e:
+            chk.fail('first-render-unparseable:' + name.split(':')[0], case, '%s: %s' % (e, rec['text'][:300])); continue
+        if rec['tree'] is not None:
+            exp = X.canon(fix(rec['tree']))
+            if rec['section'] in ('topnode', 'manifest'):
+                got = [X.sort_attrs(tree)]
+            else:
+                got = [X.sort_attrs(c) for c in tree[4] if c[0] == 'E' and (c[1], c[2]) == (exp[1], exp[2])]
+            if got != [exp]:
+                sig = 'discouraged-codepoint' if got and X.canon(fix(rec['tree']), repl=hu_like) == got[0] else 'tree-changed:first-render:' + name.split(':')[0]
+                chk.fail(sig, case, str(X.first_diff(got[0], exp)) if len(got) == 1 else '%d sections <%s> in the stream' % (len(got), exp[2]))
+    if lines:
+        for (case, text), a in zip(metas, drv.batch(lines)):
+            chk.corr(); chk.count('first_render_part_assembly')
+            if a != 'ok ' + enc_str(text):
+                chk.corr_diff(case, text[:400], dec_str(a[3:])[:400] if a.startswith('ok ') else a,
+                              'first stream(s) of a process vs renderPart with the namespace table of that moment')
+
+
+def first_render_identity_check(chk, drv=None):
+    """C02 on the FIRST renderings of a process (fresh interpreter each): a document that holds nothing of the meta namespace yet
+    (built with add_generator=False, or loaded from a package whose meta.xml has only dc:* entries / no meta.xml), then
+    metaxml() / save() / write() / xml() / ... as the very first stream the process writes.  A stream that cannot be parsed
+    gives back no tree at all; one that parses must give back the section it was written for."""
+    for spec in first_render_specs(chk):
+        first_render_one(chk, spec, drv)
+
+
+# ------------------------------------------------------------------ histories with load(): source prefixes of the generated form ns<k>
+_CHILD_HIST = r"""
+import sys, json, io, base64
+sys.path.insert(0, %(repo)r)
+sys.path.insert(0, %(harness)r)
+sys.dont_write_bytecode = True
+spec = json.loads(sys.stdin.read())
+_real_stdout = sys.stdout; sys.stdout = sys.stderr
+import xmlcorr as X, xmlchecks as C          # neither imports the library
+import odf.opendocument as OD, odf.load
+from odf.element import Element
+from odf.text import P
+def fix(n):
+    if n[0] in 'TC': return (n[0], n[1])
+    return ('E', n[1], n[2], [tuple(a) for a in n[3]], [fix(k) for k in n[4]])
+alive = [X.build(fix(t)) for t in spec.get('early', [])]      # trees in memory before the history happens
+docs = []
+errors = []
+for step in spec['steps']:
+    if step[0] == 'load':
+        try:
+            docs.append(OD.load(io.BytesIO(base64.b64decode(step[1]))))
+        except Exception as ex:
+            errors.append(repr(ex))
+    elif step[0] == 'touch_attr':        # the program's own extension attribute, on a paragraph of the latest document
+        p = P(text=u'annotated'); p.setAttrNS(step[1], u'mark', u'x')
+        if not docs:
+            docs.append(OD.OpenDocumentText())
+        (docs[-1].text if hasattr(docs[-1], 'text') else docs[-1].body).addElement(p, check_grammar=False)
+    elif step[0] == 'touch_elem':
+        alive.append(Element(qname=(step[1], u'probe'), check_grammar=False))
+    elif step[0] == 'build':
+        alive.append(X.build(fix(step[1])))
+streams = []
+def add(label, data):
+    streams.append([label, data.decode('utf-8') if isinstance(data, bytes) else data])
+for i, d in enumerate(docs):
+    for name, data in sorted(C.renderings(d).items()):
+        add('doc%d.%s' % (i, name), data)
+fresh = OD.OpenDocumentText(); fresh.text.addElement(P(text=u'fresh'))       # the table is process-wide: a new document too
+for name, data in sorted(C.renderings(fresh).items()):
+    add('fresh.' + name, data)
+for i, e in enumerate(alive):
+    add('tree%d.toXml' % i, C.PROLOGUE + X.to_xml(e))
+_real_stdout.write(json.dumps({'streams': streams, 'errors': errors, 'table': [[k, v] for k, v in Element.namespaces.items()]}))
+"""
+
+
+def run_child_hist(spec):
+    code = _CHILD_HIST.replace('%(repo)r', repr(common.REPO)).replace('%(harness)r', repr(os.path.join(common.VERIF, 'harness')))
+    r = subprocess.run([sys.executable, '-c', code], input=json.dumps(spec), stdout=subprocess.PIPE, stderr=subprocess.PIPE,
+                       universal_newlines=True)
+    if r.returncode != 0:
+        return {'error': r.stderr[-800:]}
+    return json.loads(r.stdout)
+
+
+def foreign_prefix_package(bindings):
+    """a text package as another producer writes it (zipfile + literal XML): the root of content.xml binds each (prefix, namespace)
+    of `bindings` - namespaces the library has no name for - and the body uses each on an attribute and on an element"""
+    import base64
+    MT = u'application/vnd.oasis.opendocument.text'
+    decl = (u' xmlns:office="urn:oasis:names:tc:opendocument:xmlns:office:1.0" xmlns:text="urn:oasis:names:tc:opendocument:xmlns:text:1.0"'
+            + u''.join(u' xmlns:%s="%s"' % (p, n) for p, n in bindings) + u' office:version="1.2"')
+    body = u''.join(u'<text:p %s:reviewed="yes">Hello<%s:thing %s:a="1"/></text:p>' % (p, p, p) for p, n in bindings)
+    buf = io.BytesIO(); z = zipfile.ZipFile(buf, 'w')
+    z.writestr('mimetype', MT)
+    z.writestr('content.xml', (PROLOGUE + u'<office:document-content%s><office:body><office:text>%s</office:text></office:body>'
+                               u'</office:document-content>' % (decl, body)).encode('utf-8'))
+    z.writestr('META-INF/manifest.xml', (PROLOGUE + u'<manifest:manifest xmlns:manifest="urn:oasis:names:tc:opendocument:xmlns:manifest:1.0">'
+               u'<manifest:file-entry manifest:full-path="/" manifest:media-type="%s"/>'
+               u'<manifest:file-entry manifest:full-path="content.xml" manifest:media-type="text/xml"/></manifest:manifest>' % MT).encode('utf-8'))
+    z.close()
+    return base64.b64encode(buf.getvalue()).decode('ascii')
+
+
+def generated_prefix_histories(chk):
+    """histories: load() of a package that binds a prefix of the form the library GENERATES (ns<k>, k at / just above the size of its
+    namespace table) to a foreign namespace, then further foreign namespaces (setAttrNS, Element(qname=...), another load) until the
+    generated numbers have passed k"""
+    n0 = len(translate_ns.initial_nsdict()[0])      # size of the library's table in a fresh interpreter: where generated numbers start
+    rng = chk.rng
+    hists = []
+    uid = [0]
+    def foreign():
+        uid[0] += 1; return u'urn:example:tool:%d' % uid[0]
+    def touches(n, kinds):
+        return [[kinds[j % len(kinds)], foreign()] for j in range(n)]
+    for off in range(0, 9):                          # one load, k = n0 + off, then off + 3 further namespaces
+        hists.append({'bindings': [[[u'ns%d' % (n0 + off), foreign()]]],
+                      'steps': ['L0'] + touches(off + 3, [['touch_attr'], ['touch_elem'], ['touch_attr', 'touch_elem']][off % 3])})
+    for i in range(4 if chk.tier == 'quick' else 40):
+        # several loads, several generated-form prefixes per package, touches before / between / after, trees alive across it all
+        nl = rng.choice([1, 2, 2, 3]); bindings = []; steps = touches(rng.choice([0, 0, 1, 3]), ['touch_elem', 'touch_attr'])
+        for l in range(nl):
+            b = [[u'ns%d' % (n0 + rng.randint(0, 14)), foreign()] for _ in range(rng.choice([1, 1, 2, 3]))]
+            if rng.random() < 0.3:
+                b.append([rng.choice([u'loext', u'calcext', u'ns0', u'ns7', u'x']), foreign()])
+            seen = set(); b = [x for x in b if not (x[0] in seen or seen.add(x[0]))]     # one binding per prefix in one root tag
+            bindings.append(b); steps.append('L%d' % l)
+            steps += touches(rng.randint(0, 8), ['touch_attr', 'touch_elem'])
+        steps += touches(rng.randint(4, 16), ['touch_attr', 'touch_elem'])
+        hists.append({'bindings': bindings, 'steps': steps,
+                      'early': [X.rand_tree(rng, depth=2, allow_bad=False, namespaces=X.NAMESPACES[:6] + [u'']) for _ in range(rng.choice([0, 1, 2]))]})
+    return hists
+
+
+def generated_prefix_one(chk, h, drv=None):
+    steps = []
+    def ns_order(t):                                # namespaces in the order X.build registers them: element, its attributes, its children
+        if t[0] != 'E':
+            return []
+        return [t[1]] + [a[0] for a in t[3]] + [n for k in t[4] for n in ns_order(k)]
+    order = [n for t in h.get('early', []) for n in ns_order(t) if n != u'']    # namespaces in the order the process meets them
+    for st in h['steps']:
+        if isinstance(st, str):
+            b = h['bindings'][int(st[1:])]
+            steps.append(['load', foreign_prefix_package(b)]); order += [n for p, n in b]
+        else:
+            steps.append(st); order.append(st[1])
+    out = run_child_hist({'early': h.get('early', []), 'steps': steps})
+    chk.case(('genprefix-history', json.dumps(h, sort_keys=True))); chk.count('generated_prefix_histories')
+    if 'error' in out or out.get('errors'):
+        chk.fail('history-with-load-raises', {'generated_prefix_history': h}, (out.get('error') or '; '.join(out['errors']))[-400:]); return
+    if drv is not None:
+        # the model hands out 'ns' + size of the table, whatever the source document calls the namespace
+        ans = drv.ask('nsrun ' + ' '.join(enc_str(x) for x in order))
+        real = dict((n, p) for n, p in out['table'])
+        model = ans[3:].split(' | ')[0].split() if ans.startswith('ok ') else None
+        impl = [real.get(n) for n in order]
+        chk.corr(); chk.count('generated_prefix_nsrun')
+        if model is None or [dec_str(m) for m in model] != impl:
+            chk.corr_diff({'generated_prefix_history': h}, repr(impl), ans[:300], 'prefixes of the foreign namespaces after a history with load()')
+    for label, text in out['streams']:
+        chk.count('generated_prefix_streams')
+        ok, res = wellformed(text)
+        if not ok:
+            chk.fail('not-wellformed-after-load-history:' + label.split('.', 1)[1].split(':')[0], {'generated_prefix_history': h, 'rendering': label},
+                     '%s: %s' % (res, text[:200]))
+            break
+    table_oracle(chk, out['table'], {'generated_prefix_history': h})
+
+
+def generated_prefix_histories_check(chk, drv=None):
+    """C01 "obtained by loading a package ... whatever the process has serialised before": after such a history EVERY stream (all
+    renderings of the loaded documents and of a new document, trees alive across the history) must be well-formed"""
+    for h in generated_prefix_histories(chk):
+        generated_prefix_one(chk, h, drv)
+
+
 def extreme_trees_check(chk, drv, want_identity):
     """size and shape extremes that are still legal: nesting depth in the hundreds (the writer is recursive), thousands of
     siblings, strings of > 64 KiB as text / CDATA / attribute value, hundreds of attributes.  Writer vs model byte for byte,
@@ -649,6 +1026,12 @@ def extreme_trees_check(chk, drv, want_identity):
         ('many-attrs', ('E', T, u'p', [(F, u'a%d' % i, u'v"%d' % i) for i in range(300)], [])),
         ('empty-strings', ('E', T, u'p', [(F, u'custom', u'')], [('T', u''), ('C', u''), ('E', F, u'foo', [], [('T', u'')])])),
     ]
+    # adjacent high+low surrogates (two code points each, none representable) as text, CDATA and attribute value, within one node
+    # and split over adjacent nodes
+    for j, (h, l) in enumerate(HI_LO):
+        trees.append(('surrogate-pair-%d' % j, ('E', T, u'p', [(F, u'custom', u'v' + h + l), (T, u'style-name', h + l + h + l)],
+                                                [('T', u'a' + h + l + u'b'), ('E', T, u'span', [(F, u'lang', l + h + l)], [('C', h + l), ('T', h), ('T', l)]),
+                                                 ('C', u']]>' + h + l + u']]>'), ('T', h + l + u'\U0001F600')])))
     lines = []; metas = []
     for name, tr in trees:
         e = X.build(tr)
